@@ -131,8 +131,21 @@ def main():
         print("MACHINERY-FAILURE property=%s: %s" % (a.pid, e))
         ctx.write_evidence("machinery-failure")
         sys.exit(2)
-    except Exception:
+    except Exception as e:  # noqa: BLE001
+        tb = traceback.extract_tb(e.__traceback__)
+        repo = os.environ.get("VERIF_REPO", "/repo")
+        in_repo = [f for f in tb if f.filename.startswith(repo + "/")]
         traceback.print_exc()
+        if in_repo:
+            # the exception was raised INSIDE the code under test, at a call the driver makes on the assumption that it returns
+            # (it does on the unchanged tree): that is an observable misbehaviour, not a failure of the machinery
+            f = in_repo[-1]
+            ctx.violation("the code under test raised %s: %s at %s:%d (%s), where it returns on every explored input of the unchanged tree"
+                          % (type(e).__name__, str(e)[:200], f.filename, f.lineno, f.name),
+                          {"kind": "exception-in-code-under-test", "traceback": traceback.format_exc()[-3000:]})
+            ctx.write_evidence("violation")
+            print("FAIL %s (exception inside the code under test)" % a.pid)
+            sys.exit(1)
         print("MACHINERY-FAILURE property=%s: driver crashed" % a.pid)
         ctx.write_evidence("machinery-failure")
         sys.exit(2)
